@@ -74,8 +74,9 @@ $(B)/obj/sim/%.o: sim/%.cc
 	@mkdir -p $(dir $@)
 	$(CXX) $(SIM_CXXFLAGS) -MMD -MP -c $< -o $@
 
+# bus_config_load is wrapped in simbus only: the harness learns whether a reload failed while parsing or afterwards
 $(B)/simbus: $(DBUS_OBJS) $(BUS_OBJS) $(SIM_COMMON_OBJS) $(SIMBUS_OBJS)
-	$(CXX) $(SAN) $(OPT) -o $@ $^ $(WRAPFLAGS) $(LIBS)
+	$(CXX) $(SAN) $(OPT) -o $@ $^ $(WRAPFLAGS) -Wl,--wrap=bus_config_load $(LIBS)
 
 HELPER_OBJS := $(addprefix $(B)/obj/helper/,$(addsuffix .o,$(HELPER_SRCS)))
 $(B)/obj/helper/%.o: $(REPO)/bus/%.c $(CFG)/config.h
